@@ -1221,3 +1221,20 @@ package nbs
 //@     invariant 0 <= verif_ghost.tGI && verif_ghost.tGI < lft ==> slice[verif_ghost.tGI] < target
 //@     invariant rht <= verif_ghost.tGI && verif_ghost.tGI < items && rht < items ==> slice[verif_ghost.tGI] >= target
 //@     decreases rht - lft
+
+// ---- a database on a blobstore: the records sub-object of a table is exactly its chunk-record prefix (C42)
+
+// hotCreateTableRecords / hotCreateArchiveRecords: what is copied into "<name>.records" is read with the range
+// [0, tail offset) of the table, and stored with that size
+// (table and archive sizes are below 2^63, so the lengths handed to NewBlobRange are not negative: assumed)
+//@ func (*blobstorePersister).hotCreateTableRecords
+//@   property C42
+//@   assume_requires NewBlobRange
+//@   at call tableTailOffset: assert arg1:uint32 == cnt
+//@   at call Get: assert arg3:blobstore.BlobRange == blobstore.NewBlobRange(0, l) && l == int64(off)
+//@   at call Put: assert arg3:int64 == l
+//@ func (*blobstorePersister).hotCreateArchiveRecords
+//@   property C42
+//@   assume_requires NewBlobRange
+//@   at call Get: assert arg3:blobstore.BlobRange == blobstore.NewBlobRange(0, dataLen)
+//@   at call Put: assert arg3:int64 == dataLen
